@@ -229,7 +229,7 @@ def variants_gfms(S, d, rng):
               eq(False, reps=perm, names=nn), R.judge_qtop(S)))
     if S.L in R.GF_NORM and S.tmax == S.L + 1 and S.cmax >= 0.3:
         v.append(('gf_coupling', lambda: oq.read_gf_coupling(d, S.prefix, 0.3), lambda nrec: S.expect_coupling(nrec=nrec),
-                  lambda cx, tag, res, e, w_: R.compare_table(cx, tag, res, e, w_, rtol=1e-12)))
+                  lambda cx, tag, res, e, w_: R.compare_table(cx, tag, res, e, w_, rtol=R.RTOL_DERIVED)))
     return v
 
 
@@ -309,7 +309,7 @@ def case_binary(ctx, kind, idx, rng):
         points = []
         for r in S.reps:
             b = S.bounds[r]
-            marks = [f[0] for f in b['fields']] + [b['size']]
+            marks = [f[0] for f in b['fields']] + [b['size']] + list(range(0, b['header_end'] + 1))     # every byte of the header
             for k in offsets_for(ctx, srng, b['size'], marks):
                 points.append((r, k))
         mine = points[part::PARTS]
